@@ -251,7 +251,7 @@ func spec_callFailed(k spec_Call) bool {
 func spec_lastCall() spec_Call { return spec_calls()[len(spec_calls())-1] }
 
 //@ func gengoCtx.doGenerateNamedType
-//@   props C02 C06 C07 C04
+//@   props C02 C06 C07 C04:frame
 //@   ordered
 //@   onpanic eq(spec_fx(), old(spec_fx()))
 //@   requires c != nil && c.l != nil && g != nil && x != nil
@@ -268,7 +268,7 @@ func spec_lastCall() spec_Call { return spec_calls()[len(spec_calls())-1] }
 //@   note the ignore mark is sticky: once a type signalled ErrIgnore the generator's previous file is kept, whatever later types return
 
 //@ func gengoCtx.doGenerateAliasType
-//@   props C02 C06 C04
+//@   props C02 C06 C04:frame
 //@   ordered
 //@   onpanic eq(spec_fx(), old(spec_fx()))
 //@   requires c != nil && c.l != nil && g != nil && x != nil
@@ -377,7 +377,7 @@ func spec_outPath(dir string, base string, gen string) string {
 const spec_parseMode = parser.ParseComments | parser.SkipObjectResolution | parser.AllErrors
 
 //@ func genfile.WriteToFile
-//@   props C01 C02 C07 C04
+//@   props C01 C02 C07 C04:frame
 //@   ordered
 //@   requires ff != nil && ff.body != nil && ff.imports != nil && c != nil && args != nil
 //@   requires c.Package("") != nil && c.Package("").Pkg() != nil && c.Package("").Module() != nil
@@ -485,7 +485,7 @@ func spec_ctxOf(e Executor) *gengoCtx { c, _ := e.(*gengoCtx); return c }
 //@   ensures result == c.genfile
 
 //@ func gengoCtx.Defer
-//@   props C06 C02 C05
+//@   props C06 C02 C05:frame
 //@   requires c != nil
 //@   assigns c.defers
 //@   ensures eq(c.defers, append(old(c.defers), fn))
@@ -652,7 +652,7 @@ func spec_direct(u *gengotypes.Universe, q string) bool { return gengotypes.Spec
 //@   requires sw != nil
 
 //@ func snippetWriter.Render
-//@   props C01 C09 C04 C03
+//@   props C01 C09 C04:frame C03
 //@   ordered
 //@   requires sw != nil
 //@   ensures snippet == nil || snippet.IsNil() ==> spec_written(sw.Writer) == old(spec_written(sw.Writer))
